@@ -124,6 +124,19 @@ checks['C15']['text']+=' An election trigger that arrives while a stale sync wai
 checks['C18']['text']+=' Transport errors in the sim workload (a failed vote is never re-addressed); the same member\'s NEW_VIEW one rotation later while its earlier proposal is held.'
 checks['C07']['text']+=' Byzantine NEW_VIEWs that re-propose a block of a lower view against a higher proof among their votes.'
 
+# ---- round 10 extensions
+checks['C15']['engine']='unit+sim+rt'; checks['C15']['note']=UNIT_NOTE+" porcupine v1.3.0. "+SIM_NOTE+" "+RT_NOTE
+checks['C15']['text']+=' Sim half: with the main-loop -> worker hand-off split in two steps, a commit callback entered under an already cancelled context means a context was handed out for a superseded height.'
+checks['C04']['text']+=' Proofs with both block references and no signature at all.'
+checks['C06']['text']+=' One committee slice re-filled in place with other weights between evaluations.'
+checks['C07']['text']+=' A surplus vote (forged, signature-less, or genuine of the parallel instance) behind a quorum of genuine votes; leader proposals that are neither certified by an embedded vote nor freshly requested.'
+checks['C08']['text']+=' Proofs glued from two heights; NEW_VIEWs built from the genuine votes of one rotation earlier.'
+checks['C11']['text']+=' A message the node\'s log turns down although it does not hold it counts as not counted; floods of genuinely signed votes for many distinct future views precede honest traffic.'
+checks['C12']['text']+=' A received PREPARE / COMMIT that leaves the node in its (height, view) must not touch that view\'s election timer; a block factory that returns no block under a live context.'
+checks['C14']['text']+=' Every fifth call is preceded by an abandoned attempt with the same block.'
+checks['C17']['text']+=' Traffic of the height a sync starts, handed in while the worker is busy and before that sync, must reach that height\'s term.'
+checks['C10']['text']+=' Three heights, so that a member sits out one and is back for the next.'
+
 def cmd(pid, tier):
     return "./check %s --tier %s" % (pid, tier)
 
@@ -138,7 +151,7 @@ manifest = {
   "add_only": True,
  },
  "engines": [
-  {"name": "sim", "path": "sim/", "serves_properties": ["C01","C03","C04","C05","C06","C07","C08","C09","C10","C11","C12","C13","C17","C18"], "kind_free_text": "deterministic single-threaded scheduler over N real WorkerLoops (verif hooks), Byzantine adversary with own keys + replay, online monitors over the SPI event log"},
+  {"name": "sim", "path": "sim/", "serves_properties": ["C01","C03","C04","C05","C06","C07","C08","C09","C10","C11","C12","C13","C15","C17","C18"], "kind_free_text": "deterministic single-threaded scheduler over N real WorkerLoops (verif hooks), Byzantine adversary with own keys + replay, online monitors over the SPI event log"},
   {"name": "rt", "path": "rt/", "serves_properties": ["C02","C03","C05","C07","C08","C11","C12","C13","C14","C15","C16","C17","C19"], "kind_free_text": "real MainLoop + WorkerLoop + timer trigger of 1..5 nodes in child processes built with -race: router with loss/dup/delay, parking SPI fakes, log-keyed delay injection, API driver, main-loop barrier and worker-iteration witness"},
   {"name": "unit", "path": "unit/", "serves_properties": ["C02","C06","C15","C17","C18","C19","C20"], "kind_free_text": "real function / component run on generated and enumerated inputs next to an independent reference oracle (math/big, sequential models, semantic re-parse)"},
  ],
